@@ -19,6 +19,7 @@ class SList:
         self.version = 0
         if ln is None:
             c.assume(self.len >= 0)
+            c.size_hints.append(self.len)
             j = z3.Int("vcx_j")
             c.pc.append(z3.ForAll([j], z3.And(NINF <= self.r[j], self.r[j] <= PINF), patterns=[self.r[j]]))
         if register:
@@ -167,6 +168,7 @@ class XRows:
             raise Unsupported("only rows[i, :] is modelled")
         i = it(key[0])
         cur().oblige("index.in_bounds", z3.And(0 <= i, i < self.len), kind="side")
+        cur().log.append(("xrow", i))
         return self.make_point(self.ids[i])
 
     def make_point(self, eid):
